@@ -243,6 +243,51 @@ def run_case(case, ctx):
             else:
                 ctx.violation("stopped-too-late", f"the rule is first met at epoch {expect_stop}; training ended at epoch {last} "
                               f"(stop_training={stopped}, last_epoch={es.last_epoch})", tags=tags, witness=wit)
+    # ---- a second fit with the SAME evaluator and stopper objects, epoch numbers starting over: the evaluator's history
+    # continues, so "p evaluations earlier" reaches back into the first run
+    if expect_stop is None and not stopped and last == epochs and (L + p + ps) % 2 == 0 \
+            and not any(d == "either" for _, d in decisions):
+        L1 = L
+        vals.extend(vals[:L1][::-1])
+        vrs.extend(vrs[:L1][::-1])
+        L = len(vals)
+        E2 = list(E)
+        expect2, skip2 = None, False
+        for e in range(start, epochs + 1):
+            if e % pe == 0:
+                E2.append((vals[min(len(E2), L - 1)], vrs[min(len(E2), L - 1)]))
+            if e % ps == 0 and len(E2) >= p + 1:
+                if crit == "relative" and E2[-1 - p][0] == 0:
+                    skip2 = True  # F9 territory (zero reference): not part of this scenario
+                    break
+                kind_, dv = deviation(crit, E2[-1][0], E2[-1 - p][0], E2[-1 - p][1])
+                if kind_ == "undefined" or (dv is not None and math.isnan(dv)):
+                    skip2 = True
+                    break
+                if dv < tol:
+                    expect2 = e
+                    break
+        if not skip2:
+            n0 = len(log)
+            with warnings.catch_warnings():
+                warnings.simplefilter("ignore")
+                ctx.lib("fit(second run, same callbacks)", st.fit, data, epochs=epochs, starting_epoch=start, pos_batch_size=2, lr=0.01,
+                        callbacks=[ev, es] + extra + [rec], tags=dict(tags, ref_zero=False))
+            ctx.count("second_runs_with_the_same_callbacks")
+            ended2 = [e["epoch"] for e in list(log)[n0:] if e["type"] == "cb" and e["event"] == "epoch_end"]
+            last2 = ended2[-1] if ended2 else None
+            stopped2 = bool(st.stop_training)
+            wit2 = dict(wit, values=list(vals), second_run=True, evaluations_before_second_run=len(E))
+            if expect2 is None:
+                if stopped2 or last2 != epochs:
+                    ctx.violation("stopped-too-early", f"second run with the same evaluator/stopper objects stopped at epoch {last2} although the "
+                                  f"{crit} deviation from the evaluation {p} evaluations earlier (counting the first run's) was never below {tol}",
+                                  tags=dict(tags, second_run=True), witness=wit2)
+            elif not stopped2 or last2 != expect2:
+                ctx.violation("stopped-too-late" if (last2 or 0) >= expect2 else "stopped-too-early",
+                              f"second run with the same evaluator/stopper objects: the rule is first met at epoch {expect2} (history continues from "
+                              f"the first run's {len(E)} evaluations); training ended at epoch {last2} (stop_training={stopped2})",
+                              tags=dict(tags, second_run=True), witness=wit2)
     nev = sum(1 for q in range(start, (last or 0) + 1) if q % pe == 0)
     ctx.seen("starting_epochs", start)
     if nev >= p + 1:
